@@ -144,6 +144,34 @@ def run(tier):
     for p in builders[1:]:
         compare_arms(ck, "S3.export-finalisers", builders[0], fin[builders[0]], p, fin[p], ignore=("W Interpreter.env", "M Interpreter."))
 
+    # S3b operand roles: the finalisers key their lookups / definitions by the same parts of the export record
+    import roles as R
+    ck.rule("S3b.export-roles", "the export finalisers use the same component of each ModuleExport (binding name vs export name) for every table access", floor=2)
+    role_sigs = {}
+    for p in builders:
+        f = fx.fns[p]
+        best = None
+        for sb, en, place, arms, other, rest in M.enum_switches(fx, f):
+            if en == "value::ModuleExport" and (best is None or len(arms) > len(best[3])):
+                best = (sb, en, place, arms, other, rest)
+        if best is None:
+            continue
+        sb, en, place, arms, other, rest = best
+        for var, tgt in arms.items():
+            region = M.dominated_region(f, tgt) if all(q == sb for q in f.preds()[tgt]) else {tgt}
+            sig = R.access_signature(fx, f, region)
+            role_sigs.setdefault(var, {})[p] = {(c, k) for (c, r, k) in sig}
+    for var, per in sorted(role_sigs.items()):
+        ps = sorted(per)
+        for p in ps[1:]:
+            a, b = per[ps[0]], per[p]
+            ok = a == b
+            ck.instance("S3b.export-roles", "%s <-> %s / ModuleExport::%s" % (ps[0].split("::")[-1], p.split("::")[-1], var), F.short_span(fx.fns[p].span), ok=ok)
+            if not ok:
+                ck.finding("S3b.export-roles", "S3b.export-roles/%s/%s" % (p.split("::")[-1], var), F.short_span(fx.fns[p].span),
+                           "`%s` and `%s` treat ModuleExport::%s differently: (access, key operand) only in the first %s, only in the second %s - a module behaves "
+                           "differently depending on its role" % (ps[0], p, var, sorted(a - b), sorted(b - a)))
+
     # S5 frame pop sites
     import c01
     c01.frame_restore_agreement(fx, ck, "S5.frame-pops")
